@@ -1208,9 +1208,20 @@ func ruleKnockTable(c *Ctx) {
 		e = ast.Unparen(p.Deref(f, e))
 		switch x := e.(type) {
 		case *ast.CallExpr:
+			// nil-safe protobuf getters: m.GetKnock().GetAck() is false for a nil Knock
+			if se, ok := x.Fun.(*ast.SelectorExpr); ok && len(x.Args) == 0 {
+				nm := p.CalleeName(f, x)
+				if strings.HasSuffix(nm, "ConnInfo_Knock.GetKnock") {
+					return !v.nilKnock && v.knock, true
+				}
+				if strings.HasSuffix(nm, "ConnInfo_Knock.GetAck") {
+					return !v.nilKnock && v.ack, true
+				}
+				_ = se
+			}
 			// a module predicate helper that just returns a condition on its argument
-			if ce := p.FnOf(asFunc(p.Callee(f, x))); ce != nil && ce.Decl != nil && len(ce.Body.List) == 1 {
-				if rs, ok := ce.Body.List[0].(*ast.ReturnStmt); ok && len(rs.Results) == 1 {
+			if ce := p.FnOf(asFunc(p.Callee(f, x))); ce != nil && ce.Decl != nil {
+				if rs := soleReturn(ce); rs != nil {
 					return eval(ce, rs.Results[0], v)
 				}
 			}
@@ -1237,6 +1248,18 @@ func ruleKnockTable(c *Ctx) {
 				return a || b, ok1 && ok2
 			case token.EQL, token.NEQ:
 				if isNilIdent(info, x.Y) {
+					if t := info.TypeOf(x.X); t != nil && strings.HasSuffix(t.String(), "internal/plugin.ConnInfo_Knock") {
+						if x.Op == token.EQL {
+							return v.nilKnock, true
+						}
+						return !v.nilKnock, true
+					}
+					if gc, ok := ast.Unparen(x.X).(*ast.CallExpr); ok && strings.HasSuffix(p.CalleeName(f, gc), "ConnInfo.GetKnock") {
+						if x.Op == token.EQL {
+							return v.nilKnock, true
+						}
+						return !v.nilKnock, true
+					}
 					if fv := SelField(info, x.X); fv != nil && fv.Name() == "Knock" {
 						if x.Op == token.EQL {
 							return v.nilKnock, true
@@ -1255,6 +1278,19 @@ func ruleKnockTable(c *Ctx) {
 			}
 		case *ast.SelectorExpr:
 			if fv := SelField(info, x); fv != nil {
+				if t := info.TypeOf(x.X); t != nil && strings.HasSuffix(t.String(), "internal/plugin.ConnInfo_Knock") {
+					if v.nilKnock {
+						// a nil-safe getter result dereferenced directly would panic; a
+						// guarded use never gets here because && short-circuits
+						return false, false
+					}
+					switch fv.Name() {
+					case "Knock":
+						return v.knock, true
+					case "Ack":
+						return v.ack, true
+					}
+				}
 				if inner := SelField(info, x.X); inner != nil && inner.Name() == "Knock" {
 					if v.nilKnock {
 						return false, false // would dereference nil
@@ -1275,12 +1311,17 @@ func ruleKnockTable(c *Ctx) {
 	mentionsAck = func(f *Func, e ast.Expr, depth int) bool {
 		mentions := false
 		ast.Inspect(p.Deref(f, e), func(y ast.Node) bool {
-			if se, ok := y.(*ast.SelectorExpr); ok && se.Sel.Name == "Ack" {
+			if se, ok := y.(*ast.SelectorExpr); ok && (se.Sel.Name == "Ack" || se.Sel.Name == "GetAck") {
 				mentions = true
 			}
+			if id, ok := y.(*ast.Ident); ok && depth < 3 {
+				if d := p.Deref(f, id); d != ast.Expr(id) && mentionsAck(f, d, depth+1) {
+					mentions = true
+				}
+			}
 			if call, ok := y.(*ast.CallExpr); ok && depth < 2 {
-				if ce := p.FnOf(asFunc(p.Callee(f, call))); ce != nil && ce.Decl != nil && len(ce.Body.List) == 1 {
-					if rs, ok := ce.Body.List[0].(*ast.ReturnStmt); ok && len(rs.Results) == 1 && mentionsAck(ce, rs.Results[0], depth+1) {
+				if ce := p.FnOf(asFunc(p.Callee(f, call))); ce != nil && ce.Decl != nil {
+					if rs := soleReturn(ce); rs != nil && mentionsAck(ce, rs.Results[0], depth+1) {
 						mentions = true
 					}
 				}
@@ -1357,4 +1398,29 @@ func ruleKnockTable(c *Ctx) {
 			c.R.Violate("R-ID/knock", p.Pos(cond), f.Name, ex.what, "the condition `"+exprStr(cond)+"` misclassifies the messages the other side sends (request {Knock:true,Ack:false}, acknowledgement {Knock:true,Ack:true}, plain message Knock==nil): the knock handshake cannot complete, or a message reaches the wrong side's pending table", nil)
 		}
 	}
+}
+
+// soleReturn: the function body is a sequence of simple assignments followed
+// by its only return statement (one result). Returns that statement.
+func soleReturn(f *Func) *ast.ReturnStmt {
+	if f.Body == nil || len(f.Body.List) == 0 {
+		return nil
+	}
+	n := 0
+	walkNoLit(f.Body, func(x ast.Node) bool {
+		if _, ok := x.(*ast.ReturnStmt); ok {
+			n++
+		}
+		return true
+	})
+	rs, ok := f.Body.List[len(f.Body.List)-1].(*ast.ReturnStmt)
+	if !ok || n != 1 || len(rs.Results) != 1 {
+		return nil
+	}
+	for _, st := range f.Body.List[:len(f.Body.List)-1] {
+		if _, ok := st.(*ast.AssignStmt); !ok {
+			return nil
+		}
+	}
+	return rs
 }
